@@ -112,6 +112,26 @@ def plan_C06(ctx):
     ctx.exhaustive = True
 
 
+def plan_C02(ctx):
+    ctx.rule = ("TLC enumerates the literal corpus L2 (scalars, arrays with operation-shaped elements, multi-key and near-miss-key objects) x 8 data values, "
+                "12 near-miss transforms of each of the 35 operator names computed in the specification, dispatch of all 35 names, and every literal "
+                "nested as an operand/branch result; one case per distinct TLC state")
+    cases = ctx.mc("MC_C02")
+    ctx.replay(cases)
+    ctx.exhaustive = True
+
+
+def plan_C03(ctx):
+    ctx.rule = ("TLC enumerates 35 operators x operand counts 0..6 x (3 benign + 5 arbitrary operand tuples), the bracket-less spelling of every "
+                "operator with 20 non-array operands (checked as a relation between the two spellings in the code), and 8 placements of an "
+                "arity error (selected/unselected branch, eager parent, after the deciding operand, default expression); one case per TLC state")
+    cases = ctx.mc("MC_C03")
+    ctx.replay(cases)
+    ctx.exhaustive = True
+
+
 PLANS = {
+    "C03": plan_C03,
+    "C02": plan_C02,
     "C06": plan_C06,
 }
